@@ -315,7 +315,7 @@ func genC05CaseFor(t *rapid.T, rule string) (c *ScalarCase, class string) {
 		}
 	}
 	c.Carrier = rapid.SampledFrom([]string{"var", "tag", "tag", "rm"}).Draw(t, "carrier")
-	c.T = maybeNamedDeep(t, c.T)
+	finishScalar(t, c)
 	return c, class
 }
 
